@@ -564,6 +564,10 @@ def file_mutations(data, quick, is_text=False):
             for L in sorted({0, 1, 15, 16, 17, 31, 32, 33, 64, 255, 256, 4097} | ({70000} if not quick else set())):
                 if L != ln:
                     muts.append(("grow@%d=attr-0x%x-len-%d" % (v0, t, L), data[:v0] + struct.pack(">Q", L) + b"A" * L + data[v0 + 8 + ln:]))
+            # ... and of the SAME length with other content (text that is no number in any base, zero bytes): values the library parses must not be trusted either
+            if 0 < ln <= 64:
+                for fname, fill in (("text", b"Zq#~"), ("zeros", b"\x00")):
+                    muts.append(("refill@%d=attr-0x%x-%s" % (v0, t, fname), data[:v0 + 8] + (fill * ln)[:ln] + data[v0 + 8 + ln:]))
     return muts
 
 
